@@ -1,10 +1,65 @@
-(* Props/C01.v — property theorems only (grows as the proofs land). *)
+(* Props/C01.v — property theorems only. *)
 From Coq Require Import List NArith ZArith.
-From N0 Require Import Base.PyStr Base.PyVal.
+From N0 Require Import Base.PyStr Base.PyVal Xpath.Dec Xpath.DecProofs Xpath.Token Xpath.TokenProofs
+  Xpath.Find Xpath.FindProofs Xpath.Write Xpath.SpecProofs Xpath.WalkProofs Xpath.EnumProofs.
 Import ListNotations.
 
-(* Spec-level statement proved in Base: the resolver spec composes over path concatenation. *)
-Theorem C01_resolve_app : forall t p q,
-  resolve t (p ++ q) = match resolve t p with Some u => resolve u q | None => None end.
-Proof. exact resolve_app. Qed.
-Print Assumptions C01_resolve_app.
+(* Every spelling of a node path (one token per step or name[index] tokens; every
+   index written forwards i or backwards i-len) resolves, through item access, get
+   and first, to the node Python indexing addresses (resolve), and the tree is
+   returned unchanged.  Trees: any depth, keys free of '[' that are stripped,
+   non-empty and not '..' or '*'. *)
+Theorem C01_spelled_path_resolves :
+  forall root x p, keys_ok root -> has_path_char x = true -> no_qmark x -> tokenize x <> [] ->
+  spells root p (tokenize x) ->
+  exists v, resolve root p = Some v /\
+    dict_getitem (fuel_for root x) root x = Ok (root, LVal v) /\
+    dict_get_pub (fuel_for root x) root x = Ok (root, LVal v) /\
+    dict_first (fuel_for root x) root x = Ok (root, unwrap_single (LVal v)).
+Proof. exact spelled_path_resolves. Qed.
+Print Assumptions C01_spelled_path_resolves.
+
+(* The printed form of any integer is an index token that evaluates to that integer. *)
+Theorem C01_index_token_roundtrip :
+  forall z, split_name_index (br (dec_of_Z z)) = Ok ([], IdxStr (dec_of_Z z)) /\ n0eval (dec_of_Z z) = EvInt z.
+Proof. exact index_token_roundtrip. Qed.
+Print Assumptions C01_index_token_roundtrip.
+
+(* An evaluated index addresses the element Python indexing would ... *)
+Theorem C01_python_indexing : forall len z i,
+  norm_idx len z = Some i <->
+  ((0 <= z < Z.of_nat len)%Z /\ Z.of_nat i = z) \/ ((- Z.of_nat len <= z < 0)%Z /\ Z.of_nat i = (z + Z.of_nat len)%Z).
+Proof. exact norm_idx_spec. Qed.
+Print Assumptions C01_python_indexing.
+
+(* ... and an out-of-range index is a miss: item access raises IndexError, get/first
+   give the default, whatever follows the index in the path. *)
+Theorem C01_out_of_range_is_miss :
+  forall fuel root x re rl dflt toks p c items y rest si z,
+  has_path_char x = true -> tokenize x = toks ++ y :: rest ->
+  walk root toks p (Lst c items) ->
+  split_name_index y = Ok ([], IdxStr si) -> plain_idx si -> n0eval si = EvInt z ->
+  (Z.of_nat (length items) <= z \/ z < - Z.of_nat (length items))%Z ->
+  2 * length toks + 1 <= fuel ->
+  dict_get_core fuel root x re rl dflt = Ok (root, if re then LRaise ExIndex else dflt).
+Proof. exact out_of_range_is_miss. Qed.
+Print Assumptions C01_out_of_range_is_miss.
+
+(* The enumeration lists every scalar leaf exactly once, in document order, under the
+   rendering of its position; rendered positions are pairwise different. *)
+Theorem C01_enum_leaves : forall t,
+  xpath_enum t = map (fun ps => (s_root ++ render (fst ps), snd ps)) (leaves t).
+Proof. exact enum_leaves. Qed.
+Print Assumptions C01_enum_leaves.
+
+Theorem C01_leaves_resolve : forall t, wf t -> forall p s, In (p, s) (leaves t) -> resolve t p = Some (Leaf s).
+Proof. exact leaves_resolve. Qed.
+Print Assumptions C01_leaves_resolve.
+
+(* Non-vacuity: a concrete nested tree, a path through a list of lists written with
+   name[index] and a negative index, satisfies every hypothesis above. *)
+Theorem C01_nonvacuous :
+  exists root x p, keys_ok root /\ has_path_char x = true /\ no_qmark x /\ tokenize x <> [] /\
+                   spells root p (tokenize x) /\ resolve root p = Some (Leaf (SInt 7)).
+Proof. exact c01_example. Qed.
+Print Assumptions C01_nonvacuous.
